@@ -160,6 +160,9 @@ func (w *opsWorld) apply(op string) (r opResult) {
 		if len(parts) > 5 && parts[5] == "flip" {
 			ea.Signature[17] ^= 0x04
 		}
+		if len(parts) > 5 && parts[5] == "stale" {
+			ea.ProtocolFee += 5 // altered after signing: the signature is the genuine one of the unaltered authorization
+		}
 		body, _ := json.Marshal(ea)
 		var code int
 		panicked = safely(func() { code, _ = w.httpDo("POST", "/api/v1/authorize-equipment", body) })
